@@ -200,3 +200,11 @@ Example C01_scope_example_keyword_param :
   | SErr _ => []
   end = [B "p"; B "err"; B "ctx"; B "_type"; B "p_"].
 Proof. vm_compute. reflexivity. Qed.
+
+(* The keyword list of the model is the table of generator/golang/types.go (isKeywords) as the
+   translator read it on this run (Gen/KeywordTable.v is regenerated by every check): a keyword
+   added to or removed from the source breaks this theorem. *)
+From Verif Require Import Gen.KeywordTable Gen.KeywordFacts.
+Theorem C01_keyword_table_is_source : forall n, is_keyword n = existsb (beqb n) src_keywords.
+Proof. exact keyword_table_is_source. Qed.
+Print Assumptions C01_keyword_table_is_source.
